@@ -12,6 +12,7 @@ import (
 	"net/http"
 	"os"
 	"path/filepath"
+	"runtime/debug"
 	"sort"
 	"strings"
 	"sync"
@@ -273,6 +274,9 @@ func (w *worker) runStreamable(cs *Case, obs *Obs) {
 		d := 5 * time.Second
 		if cs.End == "stall" {
 			d = 300 * time.Millisecond // the caller's deadline is what ends a call on a silent stream
+		}
+		if cs.SlowMs > 0 {
+			d = time.Duration(cs.SlowMs) * time.Millisecond
 		}
 		ctx, cancel := context.WithTimeout(context.Background(), d)
 		r := doList(ctx, cl, "c0")
@@ -579,6 +583,8 @@ func workerMain() {
 	if err != nil {
 		os.Exit(3)
 	}
+	// a runaway recursion is a crash after 256 MiB of stack, not after the default 1 GB (eight workers run side by side)
+	debug.SetMaxStack(256 << 20)
 	w := &worker{srv: startServers(), dir: filepath.Dir(os.Getenv(outEnv))}
 	var mu sync.Mutex
 	var wg sync.WaitGroup
